@@ -297,7 +297,8 @@ class ForwardScheduler(IScheduler):
                         self.__shift_by_resource_usage_and_calendar(
                             resource, resource_usage, start, _task, left_hours
                         ),
-                        datetime.now()
+                        datetime.now(),
+                        _task.start
                     )
                 else:
                     _task.end = max([t.end for t in _task.children if t.end is not None])
